@@ -106,8 +106,8 @@ _SWEEP: dict = {}
 def sweep(b: envs.Bundle, base_words, salt: int, n_eps: int, n_steps: int, flag_fn, policy: str = "legal_hash"):
     """Run n_eps episodes of up to n_steps steps; episode e starts from fold_in(key(base_words), e) and plays the
     named scripted policy (envs.deep_policy) with salt (salt + e); every fourth episode replaces one action in six
-    by an arbitrary in-spec action.  `flag_fn(state, ts, is_reset) -> (flag, aux)` is evaluated on every timestep up
-    to and including the first LAST.  Returns host arrays: first flagged step per episode (-1: none; 0 = the reset timestep), number of
+    by an arbitrary in-spec action.  `flag_fn(state, ts, is_reset, step_number) -> (flag, aux)` is evaluated on every
+    timestep up to and including the first LAST (step_number: 0 for the reset timestep, then 1, 2, ...).  Returns host arrays: first flagged step per episode (-1: none; 0 = the reset timestep), number of
     timesteps, number of aux hits, episode key words, actions."""
     import jax
     import jax.numpy as jnp
@@ -121,7 +121,7 @@ def sweep(b: envs.Bundle, base_words, salt: int, n_eps: int, n_steps: int, flag_
         def one(key0, salt_, e):
             key = jax.random.fold_in(key0, e)
             s, ts = env.reset(key)
-            f0, a0 = flag_fn(s, ts, True)
+            f0, a0 = flag_fn(s, ts, True, 0)
             chaotic = (e % 4) == 3
 
             def body(c, i):
@@ -131,7 +131,7 @@ def sweep(b: envs.Bundle, base_words, salt: int, n_eps: int, n_steps: int, flag_
                 use_raw = chaotic & (jax.random.randint(jax.random.fold_in(key, i), (), 0, 6) == 0)
                 a = jnp.where(use_raw, a_raw, jnp.asarray(a_legal).astype(b.act_dtype)).astype(b.act_dtype)
                 s2, t2 = env.step(s1, a)
-                f, ax = flag_fn(s2, t2, False)
+                f, ax = flag_fn(s2, t2, False, i + 1)
                 first = jnp.where((first < 0) & f & ~done, i + 1, first)
                 n = n + (~done).astype(jnp.int32)
                 aux = aux + (ax & ~done).astype(jnp.int32)
@@ -148,3 +148,57 @@ def sweep(b: envs.Bundle, base_words, salt: int, n_eps: int, n_steps: int, flag_
     first, n, aux, keys, acts = fn(envs.make_key(base_words), jnp.asarray(salt, jnp.int32), jnp.arange(n_eps))
     return np.asarray(first), np.asarray(n), np.asarray(aux), np.asarray(jax.random.key_data(keys) if jnp.issubdtype(
         keys.dtype, jax.dtypes.prng_key) else keys), np.asarray(acts)
+
+
+_TWIN: dict = {}
+
+
+def twin_sweep(long_b: envs.Bundle, short_b: envs.Bundle, T: int, base_words, salt: int, n_eps: int,
+               policy: str = "legal_hash"):
+    """C11: env(time_limit=T) and env(T+5) are reset with the same key and stepped with the same actions (chosen by the
+    scripted policy from the long twin's observation) for T+5 steps, n_eps episodes in one vmapped scan.  Flags, per
+    episode, the first step at which (both still running) the step types differ before step T, the short twin does not
+    return LAST on step T, or the long twin does not on step T+5.  Returns host arrays (first flagged step or -1,
+    number of episodes in which both twins were still running on step T, key words, actions)."""
+    import jax
+    import jax.numpy as jnp
+
+    k = (id(long_b), id(short_b), T, policy)
+    if k not in _TWIN:
+        le, se = long_b.env, short_b.env
+        pol = envs.deep_policy(long_b, policy)
+        raw = envs._legal_hash_policy(None, long_b.act_dtype, long_b.amin, long_b.amax)
+
+        def one(key0, salt_, e):
+            key = jax.random.fold_in(key0, e)
+            sl, tl = le.reset(key)
+            ss, ts = se.reset(key)
+            chaotic = (e % 4) == 3
+
+            def body(c, i):
+                sl1, tl1, ss1, ts1, dl, ds, first, reached = c
+                a_legal = pol(le, sl1, tl1, i, salt_ + e)
+                a_raw = raw(le, sl1, tl1, i, salt_ + e + 7)
+                use_raw = chaotic & (jax.random.randint(jax.random.fold_in(key, i), (), 0, 8) == 0)
+                a = jnp.where(use_raw, a_raw, jnp.asarray(a_legal).astype(long_b.act_dtype)).astype(long_b.act_dtype)
+                sl2, tl2 = le.step(sl1, a)
+                ss2, ts2 = se.step(ss1, a)
+                step = i + 1
+                both = ~dl & ~ds
+                bad = both & (step < T) & (tl2.step_type != ts2.step_type)
+                bad = bad | (both & (step == T) & ~ts2.last())
+                bad = bad | (~dl & (step == T + 5) & ~tl2.last())
+                first = jnp.where((first < 0) & bad, step, first)
+                reached = reached | (both & (step == T))
+                sl3, tl3 = jax.tree_util.tree_map(lambda x, y: jnp.where(dl, x, y), (sl1, tl1), (sl2, tl2))
+                ss3, ts3 = jax.tree_util.tree_map(lambda x, y: jnp.where(ds, x, y), (ss1, ts1), (ss2, ts2))
+                return (sl3, tl3, ss3, ts3, dl | tl2.last(), ds | ts2.last(), first, reached), a
+
+            init = (sl, tl, ss, ts, jnp.asarray(False), jnp.asarray(False), jnp.asarray(-1, jnp.int32), jnp.asarray(False))
+            (_, _, _, _, _, _, first, reached), acts = jax.lax.scan(body, init, jnp.arange(T + 5))
+            return first, reached, key, acts
+
+        _TWIN[k] = (long_b, short_b, jax.jit(jax.vmap(one, in_axes=(None, None, 0))))
+    fn = _TWIN[k][2]
+    first, reached, keys, acts = fn(envs.make_key(base_words), jnp.asarray(salt, jnp.int32), jnp.arange(n_eps))
+    return np.asarray(first), np.asarray(reached), np.asarray(keys), np.asarray(acts)
